@@ -10,7 +10,7 @@ META = {
             "with the ghost untruncated log. TLC checks on every reachable state that replaying checkpoint+segments "
             "reconstructs the same samples, tombstones, exemplars and latest metadata at or after the truncation time as "
             "replaying the untruncated log, and that every entry left in the log follows a series entry for its ref (both "
-            "up to three recorded known findings). TLC-generated histories (one per coverage class of the exhaustive small "
+            "up to the two recorded open findings). TLC-generated histories (one per coverage class of the exhaustive small "
             "model and of scenario skeletons, plus seeded random walks) are driven into a real tsdb.Head with forced segment "
             "cuts; the real WAL is decoded, a fresh Head replays a copy of checkpoint+segments and another the retained "
             "untruncated log, both are compared with the spec's prediction, and TLC evaluates RefClosed on the decoded "
@@ -36,7 +36,7 @@ def run(ctx):
     behs += mc.emitted
     ctx.log("MC_quick: %d generated / %d distinct, %d behaviours" % (mc.generated, mc.distinct, len(mc.emitted)))
     # (M)+(R) scenario skeletons: every parameterisation of a deep scenario shape
-    for cfg in ("MC_dup.cfg", "MC_side.cfg", "MC_reuse.cfg"):
+    for cfg in ("MC_dup.cfg", "MC_side.cfg", "MC_reuse.cfg", "MC_meta.cfg"):
         r = ctx.tlc("checkpoint", "Checkpoint", cfg, workers=4, timeout=900)
         ctx.account(r)
         behs += r.emitted
@@ -104,7 +104,7 @@ def run(ctx):
         "bounded model (see META.note); segment cuts forced with WL.NextSegment",
         "predicted checkpoint/segment entries, refs, unknown-ref counters are drift-only; verdicts come from the replayed "
         "contents and from RefClosed on the real entries",
-        "known findings KF-C15-1..3 are excused only where the model predicts exactly the observed deviation",
+        "open findings KF-C15-1 and KF-C15-2 are excused only where the model predicts exactly the observed deviation; KF-C15-3/4 are repaired and modelled as repaired",
     ]
     return ctx.finish(rule="one behaviour per coverage class of the exhaustive run and of the scenario skeletons + simulated walks; "
                            "each is driven into a real Head, then two fresh Heads replay checkpoint+segments and the retained "
